@@ -292,7 +292,8 @@ SPEC = PropertySpec(
     gen=translate.generate,
     rule=('random jump tables of 2-14 distinct rows (4 atoms, 3-7 sites on a k/8 grid of a pool lattice incl. triclinic ones, start '
           'times 0..40, 40% long transits overlapping many other jumps), window 0-5, cut-off from {0.5,1,2,3,4.5,6} kept >= 1e-6 from '
-          'every site distance; through Collective(...) directly and a few through Jumps.collective() (window formula recomputed from '
+          'every site distance; through Collective(...) directly and 30 (200) through Jumps.collective() — half of them with a site structure carrying a 3-6 % '
+          'different reference cell and a cut-off 2 % off a site separation of the simulation cell — (window formula recomputed from '
           'the implementation\'s own attempt frequency). On the implementation: reported unordered pairs = pairs satisfying the three '
           'conditions (exact minimum-image distances from the certified model), each once, solo + collective = total; exact '
           'agreement (order included) with the Lean scan. Non-trivial: >= 1 reported pair and >= 1 rejected pair for each of '
